@@ -286,6 +286,11 @@ func (root *Root) addTypes(types ...Type) error {
 			case *List, *NonNull, *Ref:
 				return fmt.Errorf("%w: %s, a %T can not be added", ErrTypeMismatch, name, t)
 			default:
+				if it, _ := t.(*Interface); it != nil && it.Root == nil {
+					// An interface looks its possible types up in the
+					// root, also one that was built in Go.
+					it.Root = root
+				}
 				root.types.add(t)
 			}
 		}
